@@ -283,9 +283,24 @@ def explore(body, start, facts=None, removed_edges=(), removed_blocks=(), learn=
             if assume and b in assume:
                 # hypothesis: the bool returned by the call in this block (`explore(.., assume={call_block: True})`)
                 r = assume[b]
+            # `?` plumbing carries the variant: Try::branch(Err(..)) is Break, Try::branch(Ok(..)) is Continue, from_residual builds Err / None
+            carried = None
+            from .facts import mname as _mn
+            mm = _mn(t)
+            if not t["dest"]["p"]:
+                if mm == "FromResidual::from_residual":
+                    dty = body.lty(l)
+                    carried = "Err" if "Result<" in dty else ("None" if "Option<" in dty else None)
+                elif mm == "Try::branch" and t["args"]:
+                    a0 = t["args"][0].get("move") or t["args"][0].get("copy")
+                    if a0 is not None and not a0["p"]:
+                        src_v = vf.get((a0["l"], "[]"))
+                        carried = {"Err": "Break", "None": "Break", "Ok": "Continue", "Some": "Continue"}.get(src_v)
             for k in [k for k in vf if k[0] == l]:
                 del vf[k]
             bf.pop(l, None)
+            if carried is not None:
+                vf[(l, "[]")] = carried
             if r is not None and not t["dest"]["p"]:
                 bf[l] = bool(r)
         outs = []
